@@ -22,7 +22,10 @@ CFG = {
         "harness and replayed in Coq, same-key bursts (6-16 goroutines released from spin barriers onto 24-79 initially absent keys of one "
         "fresh cache, single and wide, observed only at quiescence and checked against what every linearisation guarantees: no duplicate "
         "keys, Length = len Keys, Size = sum of listed sizes <= Capacity, Exist/Peek agree with Items, nothing evicted or lost when the "
-        "written keys fit - c04_burst_every_linearisation), and an out-of-domain stream (negative sizes/capacities -> panic, sizes near 2^63 -> int64 wrap). "
+        "written keys fit - c04_burst_every_linearisation), SetIfAbsent-only bursts (4-12 goroutines each doing SetIfAbsent(k, own value of "
+        "own size) then Get/Peek(k) on 40-80 fresh keys behind a per-key spin barrier, capacity large enough that nothing evicts; checked "
+        "against first-insert-wins: per key every recorded read and the value at quiescence are one and the same, every key present, Size = "
+        "sum of the winners' sizes, no eviction - c04_sia_every_linearisation, c04_first_insert_is_never_replaced), and an out-of-domain stream (negative sizes/capacities -> panic, sizes near 2^63 -> int64 wrap). "
         "Proof is the right level: the claim is equality with an ideal LRU on every history; tests reach a dozen scenarios."
     ),
     "level_note": (
@@ -31,8 +34,10 @@ CFG = {
         "linearisation that Coq re-checks); the lock-discipline lint for the concurrent clause (every exported method of both LRUCache types "
         "is one critical section, so a concurrent execution is one of the histories the theorems quantify over; Init and StatsJSON are not "
         "covered: Init is the constructor's unsynchronised initialiser, StatsJSON is a formatting wrapper around Stats). case_sound is proved "
-        "through the refinement theorems (not by defining accept as matches && holds), except for burst cases: a burst has no single model "
-        "run to compare with, so there case_accept = case_holds = the quiescent-state monitor, which c04_burst_every_linearisation proves "
+        "through the refinement theorems (not by defining accept as matches && holds), except for burst cases (CBurst, CSia): a burst has no single model "
+        "run to compare with, so there case_accept = case_holds = the monitor; for CSia the monitor is the per-key reading of "
+        "c04_sia_every_linearisation (every linearisation is a first-insert-wins map that never replaces a present key); for CBurst it is "
+        "the quiescent-state monitor, which c04_burst_every_linearisation proves "
         "of the model's final state for every linearisation of the burst (single caches; the wide-facade variant of the monitor - per "
         "shard the present keys fit and a shard whose written keys fit has lost none - is evaluated but not restated as a theorem). Guard: sizes and capacities <= 2^62-1; beyond it the "
         "int64 size field wraps (c04_guard_needed) - such cases are compared with the model but case_holds claims nothing for them. "
@@ -44,7 +49,7 @@ CFG = {
     "rule": (
         "one case = one generated history run on a fresh real cache. Sequential: non-trivial when at least one Get/Peek hit and at least one "
         "eviction occurred; wide: non-trivial when a Set made the number of present keys not grow while keys were present (a shard evicted); "
-        "concurrent: non-trivial when >= 2 goroutines ran and at least one eviction occurred; burst: non-trivial when >= 2 goroutines ran and at least one key is present at quiescence. distinct = distinct Coq case terms"
+        "concurrent: non-trivial when >= 2 goroutines ran and at least one eviction occurred; burst: non-trivial when >= 2 goroutines ran and at least one key is present at quiescence; SetIfAbsent-only burst: non-trivial when >= 2 goroutines ran. distinct = distinct Coq case terms"
     ),
     "trusted": [
         "Go harness c04: adapters over cache.LRUCache / tiny.LRUCache / the four wide constructors, recover wrappers, atomic tick stamping of concurrent calls",
